@@ -33,16 +33,20 @@ pub(crate) struct SendTrack {
 	effects: Vec<Box<dyn Effect>>,
 	input: Vec<Frame>,
 	internal_buffer_size: usize,
+	/// The sample rate the effects were last told about.
+	sample_rate: u32,
 }
 
 impl SendTrack {
 	pub fn init_effects(&mut self, sample_rate: u32) {
+		self.sample_rate = sample_rate;
 		for effect in &mut self.effects {
 			effect.init(sample_rate, self.internal_buffer_size);
 		}
 	}
 
 	pub fn on_change_sample_rate(&mut self, sample_rate: u32) {
+		self.sample_rate = sample_rate;
 		for effect in &mut self.effects {
 			effect.on_change_sample_rate(sample_rate);
 		}
@@ -59,7 +63,11 @@ impl SendTrack {
 		}
 	}
 
-	pub fn on_start_processing(&mut self) {
+	pub fn on_start_processing(&mut self, sample_rate: u32) {
+		// see Track::on_start_processing
+		if self.sample_rate != sample_rate {
+			self.on_change_sample_rate(sample_rate);
+		}
 		self.volume
 			.read_command(&mut self.set_volume_command_reader);
 		for effect in &mut self.effects {
